@@ -26,6 +26,13 @@
   Store level:
     redeliver_idempotent, redeliver_prefix, redeliver_twice                                                  (full)
 
+  Pending index of the queue (FileQueue.Index / refCnt / emptyFile; model `qStep`, tied op by op to the real
+  setIndex / delIndex / emptyFile by the `qput/qbatch/qdone/qcrash` ops):
+    queue_refcnt_invariant   refCnt k = number of pending records of k, for every op sequence; no panic  (full)
+    queue_wal_removed_only_when_idle, queue_no_acked_record_lost   tmp.data is removed only when nothing is
+                             pending; a crash at any point loses no acknowledged record                    (full)
+    queue_seeded_refuted     the variant whose setIndex drops the increment loses an acknowledged record (refutation)
+
   context.data (candidate list):
     context_replace_atomic, context_tmp_never_read, context_first_start_atomic   write-temp-then-rename
                              (current code, /repo commit 298fcc8): restart reads exactly old or new      (full)
@@ -530,6 +537,76 @@ theorem recoverBytes_torn_refuted_panic :
     recoverBytesLegacy (Store.empty.apply witness.r) ((encodeRecord witness.ts witness.crc witness.r).take 19) = none := by
   unfold recoverBytesLegacy recoverWith
   rw [scan_torn_total_refuted_error]
+
+/-! ## the pending index of the queue: tmp.data is removed only when nothing is pending -/
+
+/-- the flags of an operation's records are the ones their keys are always written with -/
+def OpFlagged (fl : Bytes → Nat) : QOp → Prop
+  | .put r => r.flg = fl r.key
+  | .batch rs => ∀ r ∈ rs, r.flg = fl r.key
+  | .done => True
+
+/-- **queue_refcnt_invariant**: for EVERY sequence of Put / PutBatch / Done operations of the code under
+    test the run never panics and the invariant holds: `refCnt k` = number of pending records of `k`
+    (no entry = 0), and tmp.data = (records already persisted since the last reset) ++ pending. -/
+theorem queue_refcnt_invariant (fl : Bytes → Nat) (ops : List QOp) (s : QState) (h : QInv fl s)
+    (hops : ∀ op ∈ ops, OpFlagged fl op) :
+    (qRun false s ops).2 = false ∧ QInv fl (qRun false s ops).1 := by
+  induction ops generalizing s with
+  | nil => exact ⟨rfl, h⟩
+  | cons op ops ih =>
+    have hop : OpFlagged fl op := hops op (by simp)
+    obtain ⟨h1, h2⟩ := qInv_step fl s op h (by cases op <;> exact hop)
+    unfold qRun
+    cases hs : qStep false s op with
+    | mk s' p =>
+      rw [hs] at h1 h2
+      simp only at h1 h2
+      subst h1
+      simp only
+      exact ih s' h2 (fun op' h' => hops op' (by simp [h']))
+
+/-- **queue_wal_removed_only_when_idle**: whenever `emptyFile` finds the index empty (and deletes
+    tmp.data), no record is pending. -/
+theorem queue_wal_removed_only_when_idle (fl : Bytes → Nat) (ops : List QOp)
+    (hops : ∀ op ∈ ops, OpFlagged fl op) :
+    (qRun false QState.init ops).1.index = [] → (qRun false QState.init ops).1.pending = [] :=
+  qInv_index_empty fl _ (queue_refcnt_invariant fl ops _ (qInv_init fl) hops).2
+
+/-- what a restart serves = what the acknowledged writes promise, in every state satisfying the invariant -/
+theorem recovered_eq_promised (fl : Bytes → Nat) (s : QState) (h : QInv fl s) : s.recovered = s.promised := by
+  obtain ⟨d0, a, hd, hw⟩ := h.wal
+  unfold QState.recovered QState.promised
+  rw [hw, hd, replay_append, replay_append, replay_append, replay_append]
+  rw [redeliver_twice]
+
+/-- **queue_no_acked_record_lost**: for every operation sequence and a crash at ANY point of it (every
+    prefix of the sequence), recovery — bitcask content plus redelivery of tmp.data — yields exactly the
+    store that the acknowledged Put/PutBatch calls promise: no acknowledged record is lost. -/
+theorem queue_no_acked_record_lost (fl : Bytes → Nat) (ops : List QOp) (n : Nat)
+    (hops : ∀ op ∈ ops, OpFlagged fl op) :
+    (qRun false QState.init (ops.take n)).2 = false ∧
+    (qRun false QState.init (ops.take n)).1.recovered = (qRun false QState.init (ops.take n)).1.promised := by
+  have := queue_refcnt_invariant fl (ops.take n) _ (qInv_init fl)
+    (fun op h => hops op (List.mem_of_mem_take h))
+  exact ⟨this.1, recovered_eq_promised fl _ this.2⟩
+
+/-- the seeded variant (`setIndex` updates a pending entry in place and drops the increment): account X is
+    written twice while the first write is queued, the writer persists the first, another key is put
+    (emptyFile finds the index empty and deletes tmp.data), crash. -/
+def seededOps : List QOp :=
+  [.put ⟨4, [0xA1], [100]⟩, .put ⟨4, [0xA1], [200]⟩, .done, .put ⟨4, [0xB2], [1]⟩]
+
+/-- **queue_seeded_refuted**: in the variant without the increment the index is empty while a record is
+    pending, tmp.data is wiped, and a crash serves X = 100 although X = 200 was acknowledged. -/
+theorem queue_seeded_refuted :
+    (qRun true QState.init (seededOps.take 3)).1.index = [] ∧
+    (qRun true QState.init (seededOps.take 3)).1.pending ≠ [] ∧
+    (qRun true QState.init seededOps).1.recovered (4, [0xA1]) = some [100] ∧
+    (qRun true QState.init seededOps).1.promised (4, [0xA1]) = some [200] := by decide
+
+/-- the same operations on the code under test: nothing is lost -/
+example : (qRun false QState.init seededOps).1.recovered (4, [0xA1]) = some [200] := by decide
 
 /-! ## context.data: atomic replacement -/
 
